@@ -213,7 +213,7 @@ def run_config(contract, cfg, facets="VCSTRN", prime=None, tier="quick", max_pat
                     obs.append((nm, [], f, hyps))
             with _entry_state(c):
                 raises = contract.raises(c, *args, **kwargs)
-            if outcome[0] == "exc" and cfg.get("mode") == "g0" and "G" in facets \
+            if outcome[0] == "exc" and cfg.get("mode") == "g0" and "G" in facets and not cfg.get("raises_only") \
                     and isinstance(outcome[1], VALUE_ERRORS):
                 # C07: under a false guard nothing may raise because of the values it meets
                 P.solver.push()
